@@ -267,7 +267,7 @@ func fuzzPhase(e *emitter, rng *rand.Rand, thorough bool, orders map[string]int)
 		// Size: the length of the state (what raft guarantees), or not
 		cls := "size=len"
 		m.Size = int64(len(st))
-		if i%8 == 5 {
+		if i%4 == 1 {
 			switch rng.Intn(4) {
 			case 0:
 				if len(st) > 0 {
